@@ -35,12 +35,12 @@ type Loaded struct {
 	LoadSec float64
 }
 
-func Load(repo string, patterns []string, tags string) (*Loaded, error) {
+func Load(repo string, patterns []string, tags string, env ...string) (*Loaded, error) {
 	cfg := &packages.Config{
 		Mode:       packages.NeedName | packages.NeedFiles | packages.NeedCompiledGoFiles | packages.NeedImports | packages.NeedDeps | packages.NeedTypes | packages.NeedSyntax | packages.NeedTypesInfo | packages.NeedTypesSizes,
 		Dir:        repo,
 		BuildFlags: []string{"-tags=" + tags},
-		Env:        append(os.Environ(), "GOFLAGS=-mod=mod", "GOPROXY=off", "GOSUMDB=off", "GOTOOLCHAIN=local"),
+		Env:        append(append(os.Environ(), "GOFLAGS=-mod=mod", "GOPROXY=off", "GOSUMDB=off", "GOTOOLCHAIN=local"), env...),
 	}
 	pkgs, err := packages.Load(cfg, patterns...)
 	if err != nil {
